@@ -19,8 +19,12 @@ KINDS = ["IADD_RS", "IADD_M", "ISUB_R", "ISUB_M", "IMUL_R", "IMUL_M", "IMULH_R",
 QUICK_KINDS = ["INEG_R", "FSWAP_R", "FSCAL_R", "IXOR_R", "ISWAP_R", "ISUB_R", "ISTORE"]
 
 
+# rotations by a register amount: MiniSat's run time on these varies between 80 s and > 1800 s for the same query
+ROT_BACKEND = {"IROR_R": "kissat", "IROL_R": "kissat"}
+
+
 def ob(k, dst=None):
-    return {"name": "jit_" + k + ("" if dst is None else "_dst%d" % dst), "tier": "quick" if dst is None else "thorough",
+    return {"backend": ROT_BACKEND.get(k, "minisat"), "name": "jit_" + k + ("" if dst is None else "_dst%d" % dst), "tier": "quick" if dst is None else "thorough",
             "files": [XS.JIT_SIZES, {"cxx": XS.JIT_EMIT, "out": "je.c", "header": True}, "harness_jit_equiv.c"],
             "incdirs": INC, "defines": ['RXV_CONTRACTS_H="decls_jit.h"', "KIND=S_" + k, "KNAME=" + k] + ([] if dst is None else ["DST_ONLY=%d" % dst]),
             "entry": "h_jit", "unwind": 100, "cbmc_flags": ["--object-bits", "10", "--max-field-sensitivity-array-size", "128"],
